@@ -333,7 +333,11 @@ class FilterbankBlock(BaseBlock):
             new_ar = kernels.dmt_block_valid(self.data, -dm_delays)
         else:
             new_ar = kernels.dmt_block(self.data, -dm_delays)
-        return DMTBlock(new_ar, self.header.new_header({"nchans": 1}), dm_arr)
+        return DMTBlock(
+            new_ar,
+            self.header.new_header({"nchans": 1, "nsamples": new_ar.shape[1]}),
+            dm_arr,
+        )
 
     def to_file(self, filename: str | None = None) -> str:
         """Write the data to file.
